@@ -75,25 +75,42 @@ theorem signedToStringInP_eq (a : Int) (d : Denom) : signedToStringInP a d = .ok
     simp only [if_true, h1, hs, bind_ok, ha, fmtPiconeroInP_eq]
   · simp only [h, if_false, bind_ok, fmtPiconeroInP_eq]
 
-theorem negI64_nonneg (site : String) (q : Nat) : negI64 site (q : Int) = .ok (-(q : Int)) := by
+/-- below `2^63` the cast `as i64` keeps the value -/
+theorem castI64_small (q : Nat) (h : ¬ q > I64MAX) : castI64 q = (q : Int) := by
+  have h63 : I64MAX = 2 ^ 63 - 1 := rfl
+  have hq : q < 2 ^ 63 := by omega
+  have hm : q % 2 ^ 64 = q := Nat.mod_eq_of_lt (by omega)
+  unfold castI64
+  simp only [hm]
+  rw [if_pos hq]
+
+/-- the negation site is unreachable BECAUSE of the range test: the operand is the wrapped cast, which is `i64::MIN` exactly
+for `q = 2^63 (mod 2^64)`, a value the test `q > i64::MAX` excludes -/
+theorem negI64_cast_guarded (site : String) (q : Nat) (h : ¬ q > I64MAX) : negI64 site (castI64 q) = .ok (-(q : Int)) := by
+  rw [castI64_small q h]
   unfold negI64
   rw [if_neg]
   have : (0 : Int) ≤ (q : Int) := Int.natCast_nonneg q
   have h63 : (2 : Int) ^ 63 = 9223372036854775808 := by decide
   omega
 
+/-- … and it is REACHABLE without the test: `piconero = 2^63` -/
+theorem negI64_cast_fires (site : String) : negI64 site (castI64 (2 ^ 63)) = .panic site := by
+  have : castI64 (2 ^ 63) = -(2 : Int) ^ 63 := by decide
+  rw [this]; unfold negI64; rw [if_pos rfl]
+
 theorem signedFromStrInP_eq (s : Bytes) (d : Denom) (hu : Utf8 s) : signedFromStrInP s d = ofExc (signedFromStrIn s d) := by
-  unfold signedFromStrInP signedFromStrIn
+  unfold signedFromStrInP signedFromStrInG signedFromStrIn
   rw [parseSignedToPiconeroP_eq s d hu]
   cases parseSignedToPiconero s d with
   | error e => rfl
   | ok v =>
     obtain ⟨neg, q⟩ := v
-    simp only [ofExc_ok, bind_ok]
+    simp only [ofExc_ok, bind_ok, true_and]
     by_cases hq : q > I64MAX
     · rw [if_pos hq, if_pos hq]; rfl
     · rw [if_neg hq, if_neg hq]
       cases neg with
-      | true => simp only [if_true]; rw [negI64_nonneg]; rfl
-      | false => simp only [Bool.false_eq_true, if_false]; rfl
+      | true => simp only [if_true]; rw [negI64_cast_guarded _ _ hq]; rfl
+      | false => simp only [Bool.false_eq_true, if_false]; rw [castI64_small q hq]; rfl
 end Monero.Panics
